@@ -58,11 +58,14 @@ type Node struct {
 	Succ   []world.Key // progress successors
 	Dev    []DevEdge   // deviation edges (only if KeepDevEdges)
 	Quiet  bool        // its reconcile is a write-free self-loop
-	Goal   string      // "" if the goal holds
-	Excuse string
-	Bottom int32   // id of the bottom SCC this node forms (>=0) else -1
-	Reach  []int32 // ids of bottom SCCs reachable by progress transitions
-	done   bool
+	// Settled: its reconcile reports success and leaves the state as it is (nothing is scheduled to retry it), whether
+	// or not it attempted writes that were refused
+	Settled bool
+	Goal    string // "" if the goal holds
+	Excuse  string
+	Bottom  int32   // id of the bottom SCC this node forms (>=0) else -1
+	Reach   []int32 // ids of bottom SCCs reachable by progress transitions
+	done    bool
 }
 
 // DevEdge is a deviation edge.
@@ -97,13 +100,14 @@ type PathReplay struct {
 }
 
 type expansion struct {
-	from   world.Key
-	prog   []succ
-	dev    []succ
-	quiet  bool
-	goal   string
-	excuse string
-	nrec   int64
+	from    world.Key
+	prog    []succ
+	dev     []succ
+	quiet   bool
+	settled bool
+	goal    string
+	excuse  string
+	nrec    int64
 }
 
 type succ struct {
@@ -271,6 +275,7 @@ func Search(rep *Report, cfg SearchCfg, seeds []Seed) *Graph {
 			for _, e := range results {
 				n := g.Nodes[e.from]
 				n.Quiet, n.Goal, n.Excuse, n.done = e.quiet, e.goal, e.excuse, true
+				n.Settled = e.settled
 				g.Reconciles += e.nrec
 				for _, s := range e.prog {
 					g.Transitions++
@@ -339,6 +344,7 @@ func (g *Graph) expand(rep *Report, w *world.World, st *world.State, key world.K
 		g.judge(rep, key, "reconcile", rec, depthOf(g, key))
 		k := rec.After.Key()
 		e.quiet = len(rec.Writes()) == 0 && k == key
+		e.settled = rec.Err == nil && rec.Panic == nil && !rec.Crash && k == key
 		e.prog = append(e.prog, succ{label: "reconcile", state: rec.After, key: k})
 		if cfg.OnEdge != nil {
 			cfg.OnEdge(st, "reconcile", rec, rec.After)
